@@ -1,10 +1,21 @@
 import OnlVerif.Lemmas.EventMono
 import OnlVerif.Lemmas.KernelStep
+import OnlVerif.Lemmas.OnceExamples
 /-!
 # C02 — every waiter gets an event's outcome exactly once; failures are never lost
 
 Model: `Environment.step`, `Event.succeed/fail`, `Process._resume` in `OnlVerif/Kernel`.
 All theorems hold for every program (`σ`, `body`).
+
+The global theorems at the end (`scheduled_at_most_once` … `registration_invariant`) hold for every state reachable
+by kernel steps (`KReach`) from a state that satisfies the invariant `Once.Inv0` (the empty environment does, and
+starting processes from outside keeps it: `Once.Inv0.init`, `Once.Inv0.spawn`), under the domain hypothesis
+`Once.SafeRun` (DESIGN §3): every `succeed()`/`fail()` the run executes targets an existing plain event or condition
+(or an already triggered event, which is refused), and every `yield` names an existing event that is not an
+`Interruption` aimed at the yielding process.  `Once.SafeProg` is a sufficient condition on the program text, and
+`Once.SafeStep` is decidable, so the hypothesis can be evaluated for a concrete run (`Once.SafeUpTo`).
+`Once.NoHangRun` ("no `_resume` loop runs out of fuel") is needed only where it is named.
+Without the hypothesis the model reproduces the double scheduling of the real kernel (examples at the end).
 -/
 
 namespace C02
@@ -119,5 +130,187 @@ theorem failed_until_event_raises (body : σ → Resume → Burst ℚ σ) (fuel 
 example : closeEvent ({ s := ({ now := 0, events := #[{ kind := .plain, cbs := none, out := some (.fail ⟨"KeyError", [.int 3]⟩) }] }
     : KState ℚ Unit) }) 0 = .crash ⟨"KeyError", [.int 3]⟩
       ({ now := 0, events := #[{ kind := .plain, cbs := none, out := some (.fail ⟨"KeyError", [.int 3]⟩) }] }) := rfl
+
+/-! ## global: scheduled at most once, processed at most once, registered exactly once -/
+
+/-- **An event is scheduled at most once**: in every state of every safe run the agenda holds at most one entry per
+event, and exactly for the events that are triggered and not yet processed. -/
+theorem scheduled_at_most_once (body : σ → Resume → Burst ℚ σ) (fuel : Nat) (s0 s : KState ℚ σ)
+    (h0 : Once.Inv0 false s0) (hsafe : Once.SafeRun body fuel s0) (hr : KReach body fuel s0 s) :
+    Once.AgendaOnce s :=
+  (Once.Inv0.reach body fuel h0 (fun h => by cases h) hsafe (fun h => by cases h) hr).agendaOnce
+
+/-- **An event is in the agenda exactly while it is triggered and unprocessed** — so a triggered event is never
+forgotten: it stays scheduled until the step that processes it (and hands its outcome to every waiter). -/
+theorem scheduled_iff_triggered_unprocessed (body : σ → Resume → Burst ℚ σ) (fuel : Nat) (s0 s : KState ℚ σ)
+    (h0 : Once.Inv0 false s0) (hsafe : Once.SafeRun body fuel s0) (hr : KReach body fuel s0 s) (e : EvId) :
+    (∃ q ∈ s.agenda, q.ev = e) ↔ ((s.ev e).out ≠ none ∧ (s.ev e).cbs ≠ none) := by
+  have h := scheduled_at_most_once body fuel s0 s h0 hsafe hr
+  constructor
+  · rintro ⟨q, hq, rfl⟩; exact h.live q hq
+  · rintro ⟨h1, h2⟩; exact h.sched e h1 h2
+
+/-- **`step` never dies of a doubly scheduled event**: the event it pops is unprocessed, so the step is exactly the
+callback loop over the callbacks registered at that moment (never the `TypeError: 'NoneType' object is not iterable`
+branch). -/
+theorem never_pops_processed (body : σ → Resume → Burst ℚ σ) (fuel : Nat) (s0 s : KState ℚ σ)
+    (h0 : Once.Inv0 false s0) (hsafe : Once.SafeRun body fuel s0) (hr : KReach body fuel s0 s)
+    (q : QEntry ℚ) (rest : List (QEntry ℚ)) (hq : popMin s.agenda = some (q, rest)) :
+    ∃ L, (s.ev q.ev).cbs = some L ∧
+      step body fuel s = closeEvent (L.foldl (runCb body fuel q.ev) { s := openEvent s q rest }) q.ev := by
+  have hi := Once.Inv0.reach body fuel h0 (fun h => by cases h) hsafe (fun h => by cases h) hr
+  have hne := hi.pop_unprocessed q rest hq
+  cases hc : (s.ev q.ev).cbs with
+  | none => exact absurd hc hne
+  | some L => exact ⟨L, rfl, by simp only [step, hq, hc]⟩
+
+/-- …so **an exception leaving `step()` is always the failure of the processed event that nobody handled** — there is
+no other way for a step of a safe run to crash. -/
+theorem crash_is_unhandled_failure (body : σ → Resume → Burst ℚ σ) (fuel : Nat) (s0 s s' : KState ℚ σ) (x : Exc)
+    (h0 : Once.Inv0 false s0) (hsafe : Once.SafeRun body fuel s0) (hr : KReach body fuel s0 s)
+    (hc : step body fuel s = .crash x s') :
+    ∃ q rest, popMin s.agenda = some (q, rest) ∧ (s'.ev q.ev).out = some (.fail x) ∧ (s'.ev q.ev).defused = false := by
+  cases hq : popMin s.agenda with
+  | none => simp only [step, hq] at hc; cases hc
+  | some qr =>
+    obtain ⟨q, rest⟩ := qr
+    obtain ⟨L, _, hstep⟩ := never_pops_processed body fuel s0 s h0 hsafe hr q rest hq
+    refine ⟨q, rest, rfl, ?_⟩
+    rw [hstep] at hc
+    unfold closeEvent at hc
+    split at hc
+    · cases hc
+    · split at hc
+      · rename_i y hy
+        split at hc
+        · cases hc
+        · rename_i hd
+          cases hc
+          exact ⟨hy, by simpa using hd⟩
+      · cases hc
+
+/-- **A processed event never appears in the agenda again.** -/
+theorem processed_never_rescheduled (body : σ → Resume → Burst ℚ σ) (fuel : Nat) (s0 s : KState ℚ σ)
+    (h0 : Once.Inv0 false s0) (hsafe : Once.SafeRun body fuel s0) (hr : KReach body fuel s0 s)
+    (e : EvId) (hp : (s.ev e).cbs = none) : ∀ q ∈ s.agenda, q.ev ≠ e := by
+  intro q hq hqe
+  have := ((scheduled_at_most_once body fuel s0 s h0 hsafe hr).live q hq).2
+  rw [hqe] at this
+  exact this hp
+
+/-- **An event is processed at most once over the whole run**: once a step has popped (an entry of) event `e`, `e` is
+processed in every later state and no later step pops an entry of `e`.  With `callbacks_once_in_order` (the step that
+processes `e` invokes exactly the callbacks registered at that moment, each once, in order): every registered callback
+is invoked at most once over the whole run. -/
+theorem processed_at_most_once (body : σ → Resume → Burst ℚ σ) (fuel : Nat) (s0 s s' s2 : KState ℚ σ)
+    (h0 : Once.Inv0 false s0) (hsafe : Once.SafeRun body fuel s0) (hr : KReach body fuel s0 s)
+    (q : QEntry ℚ) (rest : List (QEntry ℚ)) (hq : popMin s.agenda = some (q, rest))
+    (hs : (step body fuel s).state? = some s') (hr2 : KReach body fuel s' s2) :
+    (s2.ev q.ev).cbs = none ∧
+    ∀ q2 rest2, popMin s2.agenda = some (q2, rest2) → q2.ev ≠ q.ev := by
+  have hi := Once.Inv0.reach body fuel h0 (fun h => by cases h) hsafe (fun h => by cases h) hr
+  have hlt : q.ev < s.events.size := Once.lt_of_cbs s _ (hi.pop_unprocessed q rest hq)
+  obtain ⟨hp', hlt'⟩ := Once.step_processes body fuel s s' q rest hq hlt hs
+  have hp2 : (s2.ev q.ev).cbs = none := (Once.reach_evMono body fuel s' s2 hr2).processed q.ev hlt' hp'
+  refine ⟨hp2, ?_⟩
+  intro q2 rest2 hq2
+  have hr02 : KReach body fuel s0 s2 := Once.KReach.trans (KReach.step hr hs) hr2
+  exact processed_never_rescheduled body fuel s0 s2 h0 hsafe hr02 q.ev hp2 q2
+    ((popMin_spec _ _ _ hq2).1.symm.subset List.mem_cons_self)
+
+/-- **The registration invariant**: in every state between two steps of a safe run, `Process._resume` of `p` is in the
+callback list of an event `e` only if `p` is an unfinished process whose current target is `e` — and then it is there
+exactly once.  Hence a process is registered on at most one event, never twice, a finished process nowhere, and
+(`probe` callbacks and a condition's `_check` are not `_resume`s) processing `e` resumes `p` exactly once. -/
+theorem registration_invariant (body : σ → Resume → Burst ℚ σ) (fuel : Nat) (s0 s : KState ℚ σ)
+    (h0 : Once.Inv0 false s0) (hsafe : Once.SafeRun body fuel s0) (hr : KReach body fuel s0 s)
+    (e : EvId) (L : List Cb) (p : EvId) (hL : (s.ev e).cbs = some L) (hm : Cb.resume p ∈ L) :
+    (s.ev p).out = none ∧ (∃ pr, s.proc? p = some pr ∧ pr.target = some e) ∧ L.count (.resume p) = 1 :=
+  (Once.Inv0.reach body fuel h0 (fun h => by cases h) hsafe (fun h => by cases h) hr).regOnce e L p hL hm
+
+/-- **No waiting process is lost** (`0 < fuel`): between two steps every unfinished process has a target that exists,
+and — unless that target has been processed already, which between steps means that the `_resume` loop ran out of fuel
+on a process that keeps yielding processed events (a Python hang) — `_resume` of the process is in the target's
+callback list, exactly once, and in no other list. -/
+theorem waiting_process_registered_once (body : σ → Resume → Burst ℚ σ) (fuel : Nat) (s0 s : KState ℚ σ)
+    (h0 : Once.Inv0 true s0) (hfuel : 0 < fuel) (hsafe : Once.SafeRun body fuel s0) (hr : KReach body fuel s0 s)
+    (p : EvId) (pr : ProcRec σ) (hp : s.proc? p = some pr) (hlive : (s.ev p).out = none) :
+    ∃ t, pr.target = some t ∧ t < s.events.size ∧
+      (∀ L, (s.ev t).cbs = some L → L.count (.resume p) = 1) ∧
+      (∀ e L, e ≠ t → (s.ev e).cbs = some L → Cb.resume p ∉ L) := by
+  have hi := Once.Inv0.reach body fuel h0 (fun _ => hfuel) hsafe (fun h => by cases h) hr
+  obtain ⟨t, h1, h2, h3⟩ := hi.noneLost p pr hp hlive
+  refine ⟨t, h1, h2, ?_, ?_⟩
+  · intro L hL
+    rcases h3 with h3 | ⟨L', h3, h4⟩
+    · rw [hL] at h3; cases h3
+    · rw [hL] at h3; cases h3
+      exact (hi.regOnce t L p hL h4).2.2
+  · intro e L hne hL hm
+    obtain ⟨_, ⟨pr', h5, h6⟩, _⟩ := hi.regOnce e L p hL hm
+    rw [hp] at h5; cases h5
+    rw [h1] at h6; cases h6
+    exact hne rfl
+
+/-- **Every waiting process is registered exactly once** — without the caveat, for runs in which no `_resume` loop runs
+out of fuel (`Once.NoHangRun`: no process yields already-processed events for ever, which would be a hang of the real
+kernel): between two steps every unfinished process is in the callback list of its (unprocessed) target exactly once,
+and in no other list. -/
+theorem waiting_process_registered_exactly_once (body : σ → Resume → Burst ℚ σ) (fuel : Nat) (s0 s : KState ℚ σ)
+    (h0 : Once.Inv0 true s0 true) (hfuel : 0 < fuel) (hsafe : Once.SafeRun body fuel s0)
+    (hnh : Once.NoHangRun body fuel s0) (hr : KReach body fuel s0 s)
+    (p : EvId) (pr : ProcRec σ) (hp : s.proc? p = some pr) (hlive : (s.ev p).out = none) :
+    ∃ t L, pr.target = some t ∧ (s.ev t).cbs = some L ∧ L.count (.resume p) = 1 ∧
+      (∀ e L', e ≠ t → (s.ev e).cbs = some L' → Cb.resume p ∉ L') := by
+  have hi := Once.Inv0.reach body fuel h0 (fun _ => hfuel) hsafe (fun _ => hnh) hr
+  obtain ⟨t, L, h1, h2, h3⟩ := hi.allRegistered p pr hp hlive
+  refine ⟨t, L, h1, h2, (hi.regOnce t L p h2 h3).2.2, ?_⟩
+  intro e L' hne hL' hm
+  obtain ⟨_, ⟨pr', h5, h6⟩, _⟩ := hi.regOnce e L' p hL' hm
+  rw [hp] at h5; cases h5
+  rw [h1] at h6; cases h6
+  exact hne rfl
+
+/-- **A waiter is resumed exactly once per wait**: the step that processes the target `t` of a waiting process `p`
+runs a callback list that contains `_resume p` exactly once (and the event is never processed again). -/
+theorem waiter_resumed_once (body : σ → Resume → Burst ℚ σ) (fuel : Nat) (s0 s : KState ℚ σ)
+    (h0 : Once.Inv0 true s0) (hfuel : 0 < fuel) (hsafe : Once.SafeRun body fuel s0) (hr : KReach body fuel s0 s)
+    (q : QEntry ℚ) (rest : List (QEntry ℚ)) (hq : popMin s.agenda = some (q, rest))
+    (p : EvId) (pr : ProcRec σ) (hp : s.proc? p = some pr) (hlive : (s.ev p).out = none) (ht : pr.target = some q.ev) :
+    ∃ L : List Cb, step body fuel s = closeEvent (L.foldl (runCb body fuel q.ev) { s := openEvent s q rest }) q.ev ∧
+      L.count (.resume p) = 1 := by
+  obtain ⟨L, hL, hstep⟩ := never_pops_processed body fuel s0 s h0.weaken hsafe hr q rest hq
+  obtain ⟨t, h1, _, h3, _⟩ := waiting_process_registered_once body fuel s0 s h0 hfuel hsafe hr p pr hp hlive
+  rw [ht] at h1; cases h1
+  exact ⟨L, hstep, h3 L hL⟩
+
+/-! ### the hypotheses are satisfiable; without them the crash is real -/
+
+/-- the empty environment, and a main program that starts processes, satisfy the initial invariant -/
+example : Once.Inv0 true (doCall ({ now := 0 } : KState ℚ Nat) 0 (.spawn 0)).1 :=
+  (Once.Inv0.init true 0 #[] (fun r => by simp [default])).spawn 0 0
+
+/-- a program that creates an event, succeeds it with a value, starts a child that sleeps, and waits for the event is
+safe in every state; so every state it can reach has each event at most once in the agenda -/
+example (fuel : Nat) (s : KState ℚ Nat)
+    (hr : KReach Once.demoBody fuel (doCall ({ now := 0 } : KState ℚ Nat) 0 (.spawn 0)).1 s) : Once.AgendaOnce s :=
+  scheduled_at_most_once Once.demoBody fuel _ s
+    ((Once.Inv0.init false 0 #[] (fun r => by simp [default])).spawn 0 0) (Once.demo_safe.run fuel _) hr
+
+/-- a run in which one process waits for an event that another process succeeds one time unit later satisfies the
+hypotheses (decided by evaluating its 6 steps), although the program text alone is not `SafeProg` -/
+example : Once.Inv0 true Once.wait0 true ∧ Once.SafeRun Once.waitBody 5 Once.wait0 ∧
+    Once.NoHangRun Once.waitBody 5 Once.wait0 ∧ ¬ Once.SafeProg Once.waitBody :=
+  ⟨Once.wait0_inv, Once.wait_safe, Once.wait_noHang, Once.wait_not_safeProg⟩
+
+/-- a process that calls `succeed()` on its own Process object: the start state satisfies the invariant, … -/
+example : Once.Inv0 false Once.bad0 := Once.bad0_inv
+/-- … the third step of the run pops an event that has been processed already and raises the `TypeError`, exactly as
+the real kernel does, … -/
+example : Once.isDoubleScheduleCrash (step Once.badBody 5
+    (Once.after (Once.after Once.bad0 (step Once.badBody 5 Once.bad0))
+      (step Once.badBody 5 (Once.after Once.bad0 (step Once.badBody 5 Once.bad0))))) = true := by decide +kernel
+/-- … and indeed the run violates the domain hypothesis. -/
+example : ¬ Once.SafeRun Once.badBody 5 Once.bad0 := Once.bad_unsafe
 
 end C02
